@@ -64,6 +64,17 @@ def W3():
     return {"parents": PAR, "methods": ms}, [worlds.mkcall([3]), worlds.mkcall([2, 2]), worlds.mkcall([3], [("k", 2)])]
 
 
+def W4():
+    # call_next with an argument of another class (the caller stays a candidate for it)
+    ms = [
+        worlds.mkmethod("m1", 1, [1], body="leaf"),
+        worlds.mkmethod("m2", 2, [2], body={"k": "next_with", "pos": ["a3"]}),
+        worlds.mkmethod("m3", 3, [3], body="next"),
+        worlds.mkmethod("mX", 4, [4], body="leaf", late=True),
+    ]
+    return {"parents": PAR, "methods": ms, "argmap": {"a3": 3}, "budget": 1}, [worlds.mkcall([2]), worlds.mkcall([3]), worlds.mkcall([4])]
+
+
 WORLDS = [W1, W2, W3]
 
 
@@ -87,6 +98,11 @@ def c18_jobs(tier, seed):
                              offender={"kind": "hookraise", "at": nm, "n": n, "members": [2, 3], "prio": 1}))
             jobs.append(dict(base, id=f"C18-w{wi}-first-hook-{n}", phase="first",
                              offender={"kind": "hookraise", "at": 0, "n": n, "members": [2, 3], "prio": 1}))
+            # a plain-Python subclass hook (ABC.__subclasshook__) raising a non-TypeError on its n-th call
+            jobs.append(dict(base, id=f"C18-w{wi}-first-shook-{n}", phase="first",
+                             offender={"kind": "subclasshook", "at": 0, "n": n, "members": [2, 3], "prio": 1}))
+            jobs.append(dict(base, id=f"C18-w{wi}-miss-shook-{n}", phase="miss", warm=probes[2],
+                             offender={"kind": "subclasshook", "at": nm, "n": n, "members": [2, 3], "prio": 1}))
         # injected faults: every hook point, sampled / all executed lines
         for phase in ("first", "rebuild", "miss"):
             extra = {"extra": "mX"} if phase == "rebuild" else {}
@@ -124,7 +140,7 @@ def c18_cases(res):
             if st["op"] != "probe":
                 continue
             offrec = None
-            if off and off["kind"] == "hookraise" and st["offender_present"]:
+            if off and off["kind"] in ("hookraise", "subclasshook") and st["offender_present"]:
                 offrec = worlds.mkmethod("offender", 99, [{"k": "check", "members": off["members"], "tag": "r"}], prio=1, body="leaf")
             ms = method_records(c["world"], st["live"], offrec)
             o = st["obs"]
@@ -181,6 +197,18 @@ def c19_jobs(tier, seed):
                                  "granularity": "line", "switches": "sweep2", "limit": 300, "offset": sh * 37 + seed, **s})
                 jobs.append({"id": f"C19-w{wi}-{name}-hook2", "world": w, "scenario": name, "after": probes,
                              "granularity": "hook", "switches": "sweep2", "limit": 400, **s})
+    # racing a call_next(other class) with the first call for that class
+    w, probes = W4()
+    for name, s in {"chain_other": dict(threads={"A": probes[0], "B": probes[1]}, warm=[probes[2]]),
+                    "chain_other_rev": dict(threads={"A": probes[1], "B": probes[0]}, warm=[probes[2]])}.items():
+        jobs.append({"id": f"C19-w4-{name}-hook", "world": w, "scenario": name, "after": probes, "granularity": "hook", "switches": "sweep1", **s})
+        jobs.append({"id": f"C19-w4-{name}-hookab", "world": w, "scenario": name, "after": probes, "granularity": "hook", "switches": "sweepab",
+                     "limit": (80 if not thorough else None), "offset": seed, **s})
+        for sh in range(2 if not thorough else 8):
+            jobs.append({"id": f"C19-w4-{name}-line{sh}", "world": w, "scenario": name, "after": probes, "granularity": "line",
+                         "switches": "sweep1", "limit": (30 if not thorough else 400), "offset": sh * 5 + seed, **s})
+            jobs.append({"id": f"C19-w4-{name}-linehk{sh}", "world": w, "scenario": name, "after": probes, "granularity": "line",
+                         "switches": "sweepab", "near_hooks": 2, "limit": (30 if not thorough else 1500), "offset": sh * 211 + seed, **s})
     return jobs
 
 
